@@ -365,7 +365,13 @@ PROPERTIES["C16"] = {"run": _sched(_c16_monitor, async_req=True, extra=_c16_extr
 
 def _c17_monitor(sc, c, outcome):
     import monitors_sched as ms
-    return ms.mon_c17(sc, c, outcome)
+    import sched_corr as scorr
+    vio = ms.mon_c17(sc, c, outcome)
+    if scorr.nonuniform_cutoff(sc, False):
+        # a scenario of the class of finding D7 (paths that leave and re-enter a group) may die in the min-delay closures or deadlock
+        # whatever the mode: that is judged under C05 / C06, where the finding is listed, not as a real-time matter
+        vio = [v for v in vio if v["law"] not in ("real-time run hangs", "a real-time run with compliant simulators completes without internal error")]
+    return vio
 
 
 def _c17_extra(o, driver, rng):
